@@ -25,3 +25,25 @@ var g2lUnits = []*g2lUnit{
 		ifaces:   map[string]string{"HashReader": "List Int → (List H × Option String)"},
 	},
 }
+
+func init() {
+	g2lUnits = append(g2lUnits, &g2lUnit{
+		out: "FnTile", ns: "Tile", pkgDir: "sumdb/tlog",
+		imports:     []string{"ModVerif.Generated.FnTlog"},
+		opens:       []string{"ModVerif.Generated.Tlog"},
+		structNames: []string{"Tile", "TileReader", "Tree", "tileHashReader"},
+		noEq:        map[string]bool{"tileHashReader": true},
+		ifaceStructs: map[string]string{"TileReader": "/-- `type TileReader interface` (SaveTiles is an effect: see `effLog`) -/\nstructure TileReader where\n  Height : Int\n  ReadTiles : List Tile → (List Bytes × Option String)\ninstance : Inhabited TileReader := ⟨{ Height := 0, ReadTiles := fun _ => ([], none) }⟩\n"},
+		effects: map[string]string{"SaveTiles": "(List Tile × List Bytes)"},
+		effFns:  map[string]string{"tileHashReader.ReadHashes": "(List Tile × List Bytes)"},
+		fns: []string{"tileForIndex", "TileForIndex", "HashFromTile", "tileHash", "NewTiles", "ReadTileData", "Tile.Path", "ParseTilePath",
+			"tileParent", "tileHashReader.ReadHashes"},
+		checked: map[string]bool{"tileForIndex": true, "TileForIndex": true, "HashFromTile": true, "tileHash": true, "NewTiles": true,
+			"ReadTileData": true, "Tile.Path": true, "ParseTilePath": true, "tileParent": true, "tileHashReader.ReadHashes": true},
+		absTypes: map[string]string{"Hash": "H"},
+		absFuncs: map[string]string{"NodeHash": "node", "copy->Hash": "ofBytes", "Hash[:]": "toBytes"},
+		absSigs:  map[string]string{"node": "H → H → H", "ofBytes": "Bytes → H", "toBytes": "H → Bytes"},
+		ifaces:   map[string]string{"HashReader": "List Int → (List H × Option String)"},
+		externs: map[string]string{},
+	})
+}
